@@ -82,7 +82,16 @@ def case_s2(ctx, rng, wd, sparse):
         else:
             ctx.call(key + "/prior_call", lambda: S2(snaps, sig.copy(), 1 - ppp, rdelta, ndelta).particle_s2(savegr=False, outputfile=""), data=info)
         ctx.count("s2_prior_call_one_argument_changed")
-    ok, res = ctx.call(key, lambda: S2(snaps, sig.copy(), ppp, rdelta, ndelta).particle_s2(savegr=savegr, outputfile=out), data=info)
+    again = bool(rng.random() < 0.3)       # history: the SAME object asked twice; the second answer is monitored
+
+    def go():
+        obj = S2(snaps, sig.copy(), ppp, rdelta, ndelta)
+        r_ = obj.particle_s2(savegr=savegr, outputfile=out)
+        if again:
+            ctx.count("s2_second_call_on_same_object")
+            r_ = obj.particle_s2(savegr=savegr, outputfile=out)
+        return r_
+    ok, res = ctx.call(key + ("/second_call" if again else ""), go, data=info)
     ctx.case(f"s2/{d}D/{cellkind}/{'sparse' if sparse else 'dense'}", snaps.snapshots[0].positions, types, sig, rdelta, ndelta, ppp, nontrivial=N >= 3,
              sample={"d": d, "N": N, "K": Kr, "cell": cellkind, "ppp": ppp, "rdelta": rdelta, "ndelta": ndelta, "sparse": sparse})
     if sparse:
